@@ -17,7 +17,7 @@ import (
 // busy and full of Ledger queries at both edges of the traceable window, whose
 // answers every replica - whatever it has pruned - must reproduce.
 func longPart(t *testing.T, run *ev.Run) {
-	nblocks := ev.Pick(2090, 4120)
+	nblocks := ev.Pick(4120, 6150)
 	proto := func(c *config.Blockchain) {
 		vchain.AllForks(c)
 		c.MaxTraceableBlocks = 10
